@@ -30,6 +30,49 @@ func checkC31(c *Ctx, r *Report) {
 	if fn == nil {
 		return
 	}
+	// ---- R6: whether a partition carries flagged records is decided on its decoded records: within
+	// the partition loop the decode is skipped only for an empty Records field (a test on the wire
+	// bytes sees the compressed form of a batch and misses what is inside it)
+	r.rule("C31.R6", "every partition with records is decoded: the only way past lfsDecodeRecordBatches within an iteration is len(partition.Records)==0", 1)
+	{
+		key := "rewriteProduceRecords decodes every non-empty partition"
+		decs := findCalls(fn, pkgProxy+".lfsDecodeRecordBatches")
+		if len(decs) == 0 {
+			r.unresolved("C31.R6", key, "no lfsDecodeRecordBatches call")
+		}
+		for _, dc := range decs {
+			hdr := innermostRangeHeader(dc)
+			if hdr == nil {
+				r.unresolved("C31.R6", key, "the decode is not inside a range loop")
+				continue
+			}
+			emptySkip := func(from *ssa.BasicBlock, si int) bool {
+				ifi, ok := from.Instrs[len(from.Instrs)-1].(*ssa.If)
+				if !ok {
+					return false
+				}
+				l := litOf(ifi.Cond, si == 0)
+				lc, okc := strip(l.X).(*ssa.Call)
+				k, okk := constInt(l.Y)
+				if !okc || !okk || calleeName(&lc.Call) != "builtin.len" {
+					return false
+				}
+				if _, f, _, okf := fieldOf(lc.Call.Args[0]); !okf || f != "Records" {
+					return false
+				}
+				return (l.Op == token.EQL && k == 0) || (l.Op == token.LSS && k == 1) || (l.Op == token.LEQ && k == 0)
+			}
+			found, _, path := search(SearchSpec{Start: Loc{hdr.Succs[0], 0},
+				Target:  func(t ssa.Instruction) bool { return t.Block() == hdr && t == hdr.Instrs[0] },
+				Blocker: func(t ssa.Instruction) bool { return t == dc.(ssa.Instruction) },
+				Removed: emptySkip})
+			if found {
+				r.viol("C31.R6", key, m.Pos(dc.Pos()), "a partition with records can be passed over without decoding it: "+renderPath(m, path)+" — flagged records inside it are forwarded unrewritten")
+			} else {
+				r.ok("C31.R6", key, m.Pos(dc.Pos()), "")
+			}
+		}
+	}
 	find := pkgProxy + ".lfsFindHeaderValue"
 	// the flag lookup: lfsFindHeaderValue(headers, "LFS_BLOB")
 	var flagCall *ssa.Call
